@@ -3,3 +3,27 @@ chk("C34", "E1", "exploration",
     "deterministic simulation: seeded search over stagger-delay lists and scripted resolver outcomes on a virtual clock, model-based oracle",
     "Seeded exploration of the real stagger_call/add_jitter/op-timeout code over a scripted resolver on tokio's paused clock; every attempt start time and the returned result are compared with a reference model of the statement. Samples the (delay list x outcome x timing) space, boundary-biased; not exhaustive.",
     "Trusts tokio's paused clock and timer wheel; the resolver is a stub implementing the public Resolver trait; +-1 ms tolerance on the +-20% window.")
+chk("C35", "E1", "exploration",
+    "deterministic simulation: scripted resolver outcomes/timeouts/resets on a virtual clock, slow and eager consumers, model-based oracle over the yielded stream",
+    "Seeded exploration of the real resolve_host_all stream (and op timeout / reset-restart) over a scripted resolver on tokio's paused clock; yielded multiset, yield times and terminal are compared with a model derived from the script and the observed resolver call log.",
+    "Resolver is a stub of the public Resolver trait; with a slow consumer, a lookup answering after its timeout but before the next poll is accepted either way (the timeout is only enforced when polled).")
+chk("C14", "E1", "exploration",
+    "deterministic simulation: seeded op sequences against PingTracker on a virtual clock, step-by-step comparison with a reference model",
+    "Seeded exploration of the real PingTracker on the paused clock: every timeout() completion time and every ping_timeout() value is compared with a small reference model of the statement; includes cancel-safety (waits dropped on budget expiry).",
+    "max_timeout < 500 ms is outside the generated space (clamp would panic; statement is silent on inconsistent bounds).")
+chk("C29", "E1", "exploration",
+    "deterministic simulation: scripted lookup services (decline/delay/error/hang) on a virtual clock, stream-protocol oracle, drop-cancellation fault",
+    "Seeded exploration of the real AddressLookupServices::resolve merged stream with 0..4 scripted services; checks the multiset of yielded items/errors, per-service order, the single terminal, nothing after the end, and cancellation on drop.",
+    "Lookup services are stubs of the public AddressLookup trait.")
+chk("C04", "E1", "exploration",
+    "deterministic simulation: real relay registry + per-connection actors over in-memory framed pipes, seeded interleavings of register/send/close/disconnect with back-pressure and write-error faults, history oracle",
+    "Seeded exploration of the real Clients registry and client actors through the public embedder API (Clients::register over SimFramed). Every delivered datagram is matched to its send by unique tag and checked for addressee, authenticated sender id, contents, ECN, segment size, at-most-once, not-on-definitely-inactive-connection and per-pair order.",
+    "Enters below tokio-websockets (BytesStreamSink seam). Drops are allowed by the statement and not counted. 'Active at accept time' is checked soundly via definitely-alive intervals, not exactly.")
+chk("C05", "E1", "exploration",
+    "deterministic simulation: adversarial frame shapes from an attacker connection against victim/bystander connections on the real relay registry, liveness probe after the attack",
+    "Seeded exploration with a hand-written adversarial encoder: every frame shape the server decoder accepts (lengths 0..limit+-1, all type bytes, segment sizes 0/1/65535, bad keys) sent to connected/unconnected ids while victim and bystander exchange traffic; oracle: victim/bystander connections are never ended by the relay and still exchange datagrams and pings afterwards.",
+    "Enters below tokio-websockets; attacker frames are whole messages (fragmentation is not modelled at this seam).")
+chk("C06", "E1", "exploration",
+    "deterministic simulation: real relay registry vs exact sequential registry model in settled ('calm') runs, interval-based safety oracle in racing runs, final per-id probe",
+    "Seeded exploration of register/close/error/disconnect/send histories over up to 4 ids with duplicate connections. Calm runs compare every health/peer-gone notice count and disconnect() return value with an exact reference model after each op; racing runs check each notice against definitely-alive intervals; every run ends with a probe per id that must arrive exactly on the newest open connection.",
+    "Notices dropped because a (tiny) queue is full are only possible in racing runs, where only safety (no spurious notice) is asserted.")
